@@ -49,7 +49,8 @@ const (
 	ACtxCancel
 	ACtxValues
 	ACtxDeadline
-	ACtxNone // executor without WithContext (executor side only)
+	ACtxNone           // executor without WithContext (executor side only)
+	ACtxDeadlineValues // deadline and values (request side: also gRPC metadata)
 )
 
 type AdapterPolicy struct {
@@ -85,6 +86,7 @@ type AdapterSpec struct {
 	ReqCtx      int             `json:"req_ctx,omitempty"`
 	ExecCtx     int             `json:"exec_ctx,omitempty"`
 	CtxD        D               `json:"ctx_d,omitempty"`
+	CtxD2       D               `json:"ctx_d2,omitempty"` // deadline of the executor's context
 	Policies    []AdapterPolicy `json:"policies"`
 	Server      []ServerStep    `json:"server"`
 	UploadDelay D               `json:"upload_delay,omitempty"` // the transport takes this long per piece of the request body (slow upload)
@@ -174,6 +176,19 @@ func (w *adapterWorld) step(n int) ServerStep {
 	return w.spec.Server[n]
 }
 
+func (s *AdapterSpec) reqDeadline() bool {
+	return s.ReqCtx == ACtxDeadline || s.ReqCtx == ACtxDeadlineValues
+}
+
+func (s *AdapterSpec) execDeadline() bool {
+	return s.ExecCtx == ACtxDeadline || s.ExecCtx == ACtxDeadlineValues
+}
+
+// deadlinePassed reports whether a deadline of the caller's or the executor's context lies at or before instant t.
+func (s *AdapterSpec) deadlinePassed(t time.Duration) bool {
+	return (s.reqDeadline() && t >= s.CtxD) || (s.execDeadline() && t >= s.CtxD2)
+}
+
 func (w *adapterWorld) mkCtx(kind int, which string) (context.Context, context.CancelFunc) {
 	switch kind {
 	case ACtxTODO:
@@ -187,9 +202,20 @@ func (w *adapterWorld) mkCtx(kind int, which string) (context.Context, context.C
 			ctx = metadata.NewIncomingContext(ctx, metadata.Pairs("k-in", "v-in"))
 		}
 		return ctx, nil
-	case ACtxDeadline:
+	case ACtxDeadline, ACtxDeadlineValues:
+		ctx := context.Background()
+		if kind == ACtxDeadlineValues {
+			ctx = context.WithValue(ctx, valKey(which), "value-of-"+which)
+			if w.spec.Proto != "http" && which == "req" {
+				ctx = metadata.NewOutgoingContext(ctx, metadata.Pairs("k-out", "v-out"))
+				ctx = metadata.NewIncomingContext(ctx, metadata.Pairs("k-in", "v-in"))
+			}
+		}
+		if which == "exec" {
+			return context.WithDeadline(ctx, time.Now().Add(w.spec.CtxD2))
+		}
 		w.deadline = time.Now().Add(w.spec.CtxD)
-		return context.WithDeadline(context.Background(), w.deadline)
+		return context.WithDeadline(ctx, w.deadline)
 	case ACtxNone:
 		return nil, nil
 	}
@@ -199,7 +225,7 @@ func (w *adapterWorld) mkCtx(kind int, which string) (context.Context, context.C
 // checkAttemptCtx compares the context an attempt runs under with the caller's.
 func (w *adapterWorld) checkAttemptCtx(ctx context.Context) int64 {
 	var p int64
-	if w.spec.ReqCtx == ACtxValues {
+	if w.spec.ReqCtx == ACtxValues || w.spec.ReqCtx == ACtxDeadlineValues {
 		if ctx.Value(valKey("req")) != "value-of-req" {
 			p |= PCtxValue
 		}
@@ -212,8 +238,10 @@ func (w *adapterWorld) checkAttemptCtx(ctx context.Context) int64 {
 			}
 		}
 	}
-	if w.spec.ReqCtx == ACtxDeadline {
-		if dl, ok := ctx.Deadline(); !ok || !dl.Equal(w.deadline) {
+	if w.spec.reqDeadline() {
+		// the caller's deadline; an earlier one when the executor's context has an earlier deadline of its own
+		dl, ok := ctx.Deadline()
+		if !ok || dl.After(w.deadline) || (!w.spec.execDeadline() && !dl.Equal(w.deadline)) {
 			p |= PCtxDeadline
 		}
 	}
